@@ -321,8 +321,8 @@ cdef class LinkedListNNPS(NNPS):
 
         # total number of cells
         _ncells = ncx
-        if dim == 2: _ncells = ncx * ncy
-        if dim == 3: _ncells = ncx * ncy * ncz
+        if dim == 2: _ncells = _ncells * ncy
+        if dim == 3: _ncells = _ncells * ncy * ncz
         return _ncells
 
     @cython.boundscheck(False)
